@@ -16,6 +16,7 @@ type StyleDecl struct {
 var cssNoiseValues = []string{"red", "RED", "#fff", "10px", "1em", "url(javascript:alert(1))", "url(http://example.org/a.png)", "expression(alert(1))", "inherit", "0", "a b", "\"x;y\"", "'a:b'",
 	"url(\"a;b\")", "url(a;b)", "}", "{", "red !important", "red ! important", "safe-abc", "12345", "bold", "left", "none", "1.0", "rgb(1,2,3)", "x\\3b y", "/* c */red", "re/**/d", "red/* ; color: blue */",
 	"\\72 ed", "r\\65 d", "r\\65\td", "r\\000065d", "r\\e d", "\\red", "r\\ed", "red\\", "\\10ffff", "\\0", "\\d800", "r\\\ned", "red\\;", "red\\\\;", "\\;", "red\\", "red !important !important", "{", "(", "[", "red /*", "\"red", "-moz-initial", "calc(1px + 2px)", "var(--x)", "attr(x)", "<", ">", "&", "\"", "'", "\x00", "é",
+	"(a]", "[a)", "{a)", "([)]", "a\\\\", "a\\\\\\",
 	// escaped bangs and other spellings around the !important flag
 	"\\!important!important", "red\\!important !important", "a\\!important", "\\!", "red \\!important", "red\\21 important", "red !\\69mportant", "red !important\\", "red!important", "red !IMPORTANT", "red!important!important", "! important", "!important", "red !importantx", "red ! important !important"}
 
@@ -145,7 +146,7 @@ func StyleAttr(r *rand.Rand, known []StyleDecl, clean bool) string {
 	case 0:
 		s += ";"
 	case 1:
-		s += Pick(r, []string{"; color", "; :", "; }", "; {", "; @import 'x'", "; color: red; }", "/*", "\\", "; \"", "; '", "; url(", ";;;"})
+		s += Pick(r, []string{"\\\\;", "\\\\\\\\;", "\\;", "; color", "; :", "; }", "; {", "; @import 'x'", "; color: red; }", "/*", "\\", "; \"", "; '", "; url(", ";;;"})
 	case 2:
 		s = " " + s + " "
 	case 3:
